@@ -616,8 +616,19 @@ def finish(ctx, lean, level_text, trusted, rule, extra_cov=None):
     broken = []
     if not lean['ok']:
         broken.append(dict(kind='lean', failures=lean['failures']))
+    tool_timeouts = []
     for d in ctx.disagreements:
+        if d.get('kind') == 'driver' and 'TimeoutExpired' in str(d.get('error', '')):
+            # the Lean driver did not finish replaying within its time limit (machine load):
+            # this says nothing about the code or the model — a tool error (exit 2), never a
+            # violation; the lines of that batch were not compared
+            tool_timeouts.append(d)
+            continue
         broken.append(d)
+    if tool_timeouts and code == 0 and not broken:
+        print(f'TOOL-ERROR property={ctx.prop} the model driver timed out on '
+              f'{len(tool_timeouts)} batch(es) of protocol lines; nothing is concluded from them')
+        code = 2
     if broken and code == 0:
         # the proof or the tie no longer checks and no failing input was found
         p = write_replay(ctx.prop, 'unproved', dict(
